@@ -234,3 +234,14 @@ def check(ctx, run):  # noqa: F811
     _check_before_purity(ctx, run)
     from .c02 import no_memoised_state
     no_memoised_state(ctx, run, "C13.R5", "a time grid remembered from another derivative / step size is reused")
+
+
+_check_before_ctors = check
+
+
+def check(ctx, run):  # noqa: F811
+    _check_before_ctors(ctx, run)
+    from ..ctors import ctor_rule
+    from ..primaries import primary_classes
+    ctor_rule(ctx, run, "C13.R6", primary_classes(ctx.prog), {"dt"}, "the step size simulate() and time_to_maturity read (self.dt) is not the one the instrument was created with")
+    ctor_rule(ctx, run, "C13.R6", ["pfhedge.instruments.derivative." + c for c in ("european.EuropeanOption", "lookback.LookbackOption", "european_binary.EuropeanBinaryOption", "american_binary.AmericanBinaryOption", "cliquet.EuropeanForwardStartOption", "variance_swap.VarianceSwap")], {"maturity", "underlier"}, "the maturity / underlier the grid is built from is not the one the derivative was created with")
